@@ -80,7 +80,9 @@ def ref_client(seat, team, scenario, net, log, fault=None, state=None):
     me = PR.FORMAL[seat]
     state = state if state is not None else {}
     try:
-        c.send(fmt.action(PR.connecting(team, seat, scenario.get('version', 18))))
+        # letter case is varied around the quoted team name, never inside it
+        c.send(fmt.action('Connecting ') + f'"{team}"' +
+               fmt.action(f' as {me} using protocol version {scenario.get("version", 18)}'))
         c.recv()                                             # "<Seat> <team> seated"
         c.send(fmt.ready(f'{me} ready for teams'))
         c.recv()                                             # Teams line
@@ -165,7 +167,8 @@ def make_settings(scenario):
     return out
 
 
-def run_session(scenario, schedule, clients=None, fault=None, kernel_hook=None, max_steps=400000, keep_log=False):
+def run_session(scenario, schedule, clients=None, fault=None, kernel_hook=None, max_steps=400000, keep_log=False,
+                clients_required=True):
     """Runs one simulated session. clients: optional list of 4 callables (seat -> task function) overriding the
     reference clients.  Returns a Result with: outcome (kernel Outcome), server_exc, client_exc {seat: exc},
     lines {conn label: [(dir, text)]}, sends (raw), output_text (or None), accept_order, client_state."""
@@ -224,7 +227,7 @@ def run_session(scenario, schedule, clients=None, fault=None, kernel_hook=None, 
                     raise
                 except BaseException as e:  # noqa
                     res.client_exc[seat] = e
-            kernel.spawn(wrapped, f'client-{A.SEATS[seat]}', required=True)
+            kernel.spawn(wrapped, f'client-{A.SEATS[seat]}', required=clients_required)
         res.outcome = kernel.run()
     finally:
         inst.uninstall()
